@@ -68,3 +68,23 @@ Theorem C01_end_to_end_with_signature_model : forall canon digest sig_ok parse_c
                  Forall (CoveredAssertion canon digest sig_ok parse_cert reparse store now root') (r_assertions r)).
 Proof. exact response_end_to_end. Qed.
 Print Assumptions C01_end_to_end_with_signature_model.
+
+(* ---- source tie (DESIGN.md 2a): the body of ValidateEncodedResponse TRANSLATED from /repo on this run — closures,
+   NSFindIterate handler, in-place field stores, every nil dereference an explicit panic — equals the model the theorems
+   above are about, for every encoded message, configuration, clock and oracle behaviour (up to fmt.Errorf texts) ---- *)
+From V Require Import Generated Keys GenPrelude GenPreludeD GenPreludeT GenFuncs GenTree P_GenTree P_GenTreeProps.
+Theorem C01_source_ValidateEncodedResponse_is_the_model : forall parse dsig decrypt cfg now enc,
+  norm_pm (G_ValidateEncodedResponse parse dsig (decrypt_assertions decrypt) cfg now enc)
+  = PVal (norm_res (entry parse enc (validate_response_tree dsig decrypt cfg now))).
+Proof. exact G_ValidateEncodedResponse_is_model. Qed.
+Print Assumptions C01_source_ValidateEncodedResponse_is_the_model.
+
+(* C01_response_sound, stated about the source: whatever the translated ValidateEncodedResponse accepts was decoded along
+   the signed path or the unsigned path (every assertion vouched) *)
+Theorem C01_source_acceptance_sound : forall parse dsig decrypt cfg now enc r,
+  cfg_skip_sig cfg = false ->
+  G_ValidateEncodedResponse parse dsig (decrypt_assertions decrypt) cfg now enc = PVal (Ok (Some r)) ->
+  exists raw root, b64_decode enc = Ok raw /\ parse raw = Ok root /\ validate cfg now r = Ok tt /\
+    (SignedPath dsig decrypt cfg now root r \/ UnsignedPath dsig decrypt cfg now root r).
+Proof. exact source_acceptance_sound. Qed.
+Print Assumptions C01_source_acceptance_sound.
